@@ -327,7 +327,11 @@ def here_string_rule(ctx, crate, body, child):
     a2 = body.call_args(second)[1]
     word = flow.backward(body, a1, lambda e: e[0] == "field" and e[1] == 1 and
                          flow.backward(body, e[2], lambda z: flow.is_field_named(z, "redirect_from")) is not None)
-    const2 = strip_sites(a2)[0] == "const" or not mir.locals_in(body.expand_vars(strip_sites(a2)))
+    cb = None
+    for sub in mir.subexprs(body.expand_vars(strip_sites(a2))):
+        if mir.const_bytes(sub) is not None:
+            cb = mir.const_bytes(sub)
+    const2 = cb == b"\n"
     order = body.dominates(first, second)
-    ctx.ob("R04-6", body.path, "parent writes redirect_from.1 then a constant (newline) to the here-string pipe",
+    ctx.ob("R04-6", body.path, "parent writes redirect_from.1 then the constant b\"\\n\" to the here-string pipe",
            word is not None and const2 and order, key="R04-6|%s|feed" % body.path, where=body.loc(first), crate=crate.kind)
